@@ -356,4 +356,18 @@ theorem include_error_handler_same_object (e : ExcObj) (b : Bool) :
 example : (renderErrorObj ⟨some false, false⟩ ⟨1, 7, [302, 5], false⟩).handlerArg = some (.cls 1) ∧
     (renderErrorObj ⟨some false, false⟩ ⟨1, 7, [302, 5], false⟩).seen = .raised ⟨1, 7, [302, 5], false⟩ := by decide
 
+/-- **The error page replaces the whole shared buffer stack, for every alias of the context.**  When the failing
+    callable ran on a copy of the caller's context (`<%inherit>`, includes, namespaces: `Context._copy` shares the
+    `_buffer_stack` list), the caller's context – the one `_render` pops the result from, or the one handed to
+    `render_context` – sees exactly one buffer, holding the error page: no partial output in front of it. -/
+theorem error_page_replaces_shared_stack (h : CtxHeap) (caller : CtxRef) (page : Str)
+    (hlive : caller.stack < h.stacks.length) :
+    ∀ alias : CtxRef, alias.stack = caller.stack →
+      (renderErrorHeap h caller.copy page).stackOf alias = [(0, page)] := by
+  intro alias ha
+  simp [renderErrorHeap, CtxHeap.stackOf, CtxRef.copy, ha, hlive]
+
+example : (renderErrorHeap ⟨[[(0, "partial".toList), (1, "deeper".toList)]]⟩ (CtxRef.copy ⟨0⟩) "PAGE".toList).stackOf ⟨0⟩
+    = [(0, "PAGE".toList)] := by decide
+
 end MakoModel.C13
